@@ -1,9 +1,135 @@
 import Driver.Util
-/-! driver ops of C20 (prefix `c20.`); filled in by the C20 work -/
+import Model.BTreeZone
+/-! driver ops of C20 (prefix `c20.`).
+
+`c20.hist <rel> <origin> <variant bits> item…` runs a whole history on one line.  Items:
+`T<r><c>` begin a transaction (replacement, commit); `p:<name>:<ty>:<cov>` add, `r:…` replace;
+`dn:<name>` delete name; `dr:<name>:<ty>:<cov>` delete rdataset; `dx:<name>:<ty>:<cov>:<hit>` delete rdata;
+`Q:<name>` bounds query on the committed version.  `c20.spec` takes the same items and prints what the
+specification says (commit snapshots and queries only).  Output: one token per op (`+`/`!K`/`!V` + snapshot of
+the writable version), `C<snapshot>` / `E!V` at the end of each transaction, `B:…` per query.
+-/
 namespace Driver
-open Model
+open Model Model.BTZ
+
+namespace C20
+
+def parseVariant (s : String) : Option Variant :=
+  match s.toList with
+  | [a, b, c, d, e] =>
+    let f := fun (ch : Char) => if ch = '1' then some true else if ch = '0' then some false else none
+    do some ⟨← f a, ← f b, ← f c, ← f d, ← f e⟩
+  | _ => none
+
+inductive Item where
+  | txn (r c : Bool)
+  | op (o : Op)
+  | query (n : Name)
+
+def parseKey (ty cov : String) : Option RdKey := do some (← ty.toNat?, ← cov.toNat?)
+
+def parseItem (s : String) : Option Item :=
+  match s.splitOn ":" with
+  | ["T11"] => some (.txn true true) | ["T10"] => some (.txn true false)
+  | ["T01"] => some (.txn false true) | ["T00"] => some (.txn false false)
+  | ["p", n, ty, cov] => do some (.op (.put (← parseName n) (← parseKey ty cov)))
+  | ["r", n, ty, cov] => do some (.op (.put (← parseName n) (← parseKey ty cov)))
+  | ["dn", n] => do some (.op (.delName (← parseName n)))
+  | ["dr", n, ty, cov] => do some (.op (.delRds (← parseName n) (← parseKey ty cov)))
+  | ["dx", n, ty, cov, h] => do some (.op (.delRdata (← parseName n) (← parseKey ty cov) (← parseBool h)))
+  | ["Q", n] => do some (.query (← parseName n))
+  | _ => none
+
+def insertSorted (x : Nat × Nat) : List (Nat × Nat) → List (Nat × Nat)
+  | [] => [x]
+  | y :: r => if x.1 < y.1 || (x.1 == y.1 && x.2 ≤ y.2) then x :: y :: r else y :: insertSorted x r
+
+def showRds (rds : List RdKey) : String :=
+  "+".intercalate ((rds.foldr insertSorted []).map fun k => s!"{k.1}.{k.2}")
+
+def showSnap (nodes : Nodes) (delegs : List Name) : String :=
+  "{" ++ ";".intercalate (nodes.map fun e => s!"{showName e.1}={e.2.flags.toNat}={showRds e.2.rds}")
+    ++ "|" ++ ";".intercalate (delegs.map showName) ++ "}"
+
+def showErr : ZErr → String
+  | .keyError => "!K" | .valueError => "!V" | .assertion => "!A"
+
+def showBounds (b : Bounds) : String :=
+  let r := match b.right with | some n => showName n | none => "none"
+  s!"B:{showName b.left}/{r}/{showName b.closestEncloser}/{if b.isEqual then 1 else 0}/{if b.isDelegation then 1 else 0}"
+
+structure St where
+  z : ZState
+  cur : Option (Option Ver × Bool)     -- open transaction: version (none = begin failed), commit flag
+  out : List String
+
+/-- the snapshot the *specification* assigns to this content -/
+def specSnap (cfg : Cfg) (nodes : Nodes) : String :=
+  showSnap (nodes.map fun e => (e.1, { e.2 with flags := flagsSpec cfg nodes e.1 })) (delegsSpec cfg nodes)
+
+def closeTxn (spec : Bool) (cfg : Cfg) (s : St) : St :=
+  match s.cur with
+  | none => s
+  | some (none, _) => { s with cur := none, out := "E!V" :: s.out }
+  | some (some ver, c) =>
+    let z' := endTxn s.z ver c
+    let snap := match z' with
+      | some (n, d) => "C" ++ (if spec then specSnap cfg n else showSnap n d)
+      | none => "C-"
+    { z := z', cur := none, out := snap :: s.out }
+
+def stepItem (spec : Bool) (v : Variant) (cfg : Cfg) (s : St) : Item → St
+  | .txn r c =>
+    let s := closeTxn spec cfg s
+    match beginTxn s.z r with
+    | .ok ver => { s with cur := some (some ver, c) }
+    | .error _ => { s with cur := some (none, c) }
+  | .op o =>
+    match s.cur with
+    | some (some ver, c) =>
+      match applyOp v cfg ver o with
+      | .ok ver' =>
+        { s with cur := some (some ver', c),
+                 out := if spec then s.out else ("+" ++ showSnap ver'.nodes ver'.delegs) :: s.out }
+      | .error e => { s with out := if spec then s.out else (showErr e ++ showSnap ver.nodes ver.delegs) :: s.out }
+    | _ => { s with out := if spec then s.out else "-" :: s.out }
+  | .query n =>
+    let s := closeTxn spec cfg s
+    match s.z with
+    | none => { s with out := "B!N" :: s.out }
+    | some (nodes, delegs) =>
+      if spec then
+        match vname cfg n with
+        | .error e => { s with out := ("B" ++ showErr e) :: s.out }
+        | .ok name =>
+          match boundsSpec cfg nodes name with
+          | some b => { s with out := showBounds b :: s.out }
+          | none => { s with out := "B!A" :: s.out }
+      else
+        match bounds v cfg nodes delegs n with
+        | .ok b => { s with out := showBounds b :: s.out }
+        | .error e => { s with out := ("B" ++ showErr e) :: s.out }
+
+def runLine (spec : Bool) (v : Variant) (cfg : Cfg) (items : List Item) : String :=
+  let s := closeTxn spec cfg (items.foldl (stepItem spec v cfg) { z := none, cur := none, out := [] })
+  " ".intercalate ("ok" :: s.out.reverse)
+
+end C20
 
 def handleC20 : List String → Option String
+  | "c20.hist" :: rel :: origin :: vb :: items => do
+    let rel ← parseBool rel
+    let origin ← parseName origin
+    let v ← C20.parseVariant vb
+    let items ← items.mapM C20.parseItem
+    some (C20.runLine false v { origin := origin, relativize := rel } items)
+  | "c20.spec" :: rel :: origin :: items => do
+    -- what the *specification* (Model.BTZ.flagsSpec / delegsSpec / boundsSpec) says after each commit and for
+    -- each query; compared with the harness' recompute-from-definition oracle
+    let rel ← parseBool rel
+    let origin ← parseName origin
+    let items ← items.mapM C20.parseItem
+    some (C20.runLine true intended { origin := origin, relativize := rel } items)
   | _ => none
 
 end Driver
